@@ -152,7 +152,8 @@ DEFAULT_POLICY = {k: v[0] for k, v in POLICIES.items()}
 DEVIATIONS = (
     'names-undefined-unless-sequence',  # only sequences / options / optionals pre-define None / []
     'none-dropped-at-frame-start',      # a None item (valueless rule / iteration) vanishes when it is
-                                        # the first item of its scope
+                                        # the first item of its scope (and anywhere in the group / optional
+                                        # operand of a name or override)
     'cut-escapes-group',                # ( ... ~ ... ) commits the option around the group
     'cut-lost-in-later-iteration',      # ~ in iteration >= 2 of a closure / in e after a separator
     'optional-around-repetition-dropped',  # [ {e} ], [ s%{e} ], [ [e] ] parse as the inner expression, so a
@@ -722,6 +723,8 @@ class _Evaluator:
         if type(r) is not tuple:
             return r, None
         v = UNSPEC if _operand_unspecified(e) else shape(r[1])
+        if self.dev_none and v is not UNSPEC and e[0] in ('group', 'opt') and any(i is None for i in r[1]):
+            v = shape([i for i in r[1] if i is not None])  # (emulation) Sequence._parse skips None results
         if self.dev_open and type(v) is list and len(r[1]) > 1:
             v = _Open(v)
         return r, v
